@@ -17,6 +17,7 @@ import (
 	"path/filepath"
 	"sort"
 	"strings"
+	"sync"
 
 	"github.com/rs/zerolog"
 
@@ -37,9 +38,36 @@ const (
 )
 
 type harness struct {
-	r   *hx.Run
-	rnd *hx.Rand
-	ctx context.Context
+	r    *hx.Run
+	rnd  *hx.Rand
+	ctx  context.Context
+	kept []keptVec // parsed vectors kept for the multi-step printing checks
+	seen int
+}
+
+// marshaler is what V2, V3 and V4 share.
+type marshaler interface {
+	MarshalText() ([]byte, error)
+	String() string
+}
+
+// keptVec is one successfully parsed vector: version, input text, the value.
+type keptVec struct {
+	ver int
+	s   string
+	m   marshaler
+}
+
+// keep remembers a parsed vector (reservoir of 512, seeded choice).
+func (h *harness) keep(ver int, s string, m marshaler) {
+	h.seen++
+	if len(h.kept) < 512 {
+		h.kept = append(h.kept, keptVec{ver, s, m})
+		return
+	}
+	if i := h.rnd.Intn(h.seen); i < len(h.kept) {
+		h.kept[i] = keptVec{ver, s, m}
+	}
 }
 
 func hexOf(s string) string { return hx.Hex([]byte(s)) }
@@ -131,6 +159,8 @@ func (h *harness) v2(s string, near bool) {
 			return p2.String(), p2 == pv
 		})
 		r.Count("v2:groups:" + groupsOf(v, []string{"E"}, []string{"CDP"}))
+		kv := pv
+		h.keep(2, s, &kv)
 	}
 	if emit {
 		r.Op("v2 "+hexOf(s), out, out != "err" || near)
@@ -260,6 +290,8 @@ func (h *harness) v3(s string, near bool) {
 			return p2.String(), p2 == pv
 		})
 		r.Count(fmt.Sprintf("v3.%d:groups:%s", minor, groupsOf(v, []string{"E", "RL", "RC"}, v3EnvNames)))
+		kv := pv
+		h.keep(3, s, &kv)
 		r.Count("v3:rating:" + rating(sp.Score10))
 		if v.mod3("S") == "C" {
 			r.Count("v3:scope-changed")
@@ -371,6 +403,8 @@ func (h *harness) v4(s string, near bool) {
 			g += "+s"
 		}
 		r.Count("v4:groups:" + g)
+		kv := pv
+		h.keep(4, s, &kv)
 		r.Count("v4:rating:" + rating(k))
 		if ks != "nan" {
 			// the model decides whether k is the rounding of its exact value
@@ -452,6 +486,127 @@ func (h *harness) osv2(s string, near bool) {
 		}
 	}
 	r.Op("o2 "+hexOf(s), out, out != "err" || near)
+}
+
+// ---------------------------------------------------------------- multi-step printing
+
+// retained: "printing a parsed vector gives an equivalent canonical vector"
+// must hold for the value the caller holds.  The []byte MarshalText returned
+// for vector A is kept while other vectors (other versions too) are
+// marshalled and printed, then compared with A's text and parsed again.
+// Protocol: `rt <verA> <hexA> <verB> <hexB>` -> `ok <text of A> <text of B>`,
+// the implementation side printing the RETAINED bytes of A.
+func (h *harness) retained(n int) {
+	r := h.r
+	if len(h.kept) < 2 {
+		return
+	}
+	for i := 0; i < n && !r.Stop(); i++ {
+		a := h.kept[h.rnd.Intn(len(h.kept))]
+		b := h.kept[h.rnd.Intn(len(h.kept))]
+		for k := 0; k < 4 && b.ver == a.ver; k++ { // prefer another version
+			b = h.kept[h.rnd.Intn(len(h.kept))]
+		}
+		extra := h.rnd.Intn(3)
+		out := hx.Guard(func() string {
+			sa := a.m.String()
+			ta, err := a.m.MarshalText() // kept
+			if err != nil {
+				return "err"
+			}
+			tb, err := b.m.MarshalText() // kept as well
+			if err != nil {
+				return "err"
+			}
+			sb := b.m.String()
+			for k := 0; k < extra; k++ { // a few more users of the package in between
+				c := h.kept[h.rnd.Intn(len(h.kept))]
+				_ = c.m.String()
+				_, _ = c.m.MarshalText()
+			}
+			if string(ta) != sa {
+				h.fail("", fmt.Sprintf("the bytes MarshalText returned for %q read %q after marshalling %q (String() gave %q)", a.s, ta, b.s, sa), a.s)
+			} else if !h.reparses(a, string(ta)) {
+				h.fail("", fmt.Sprintf("the retained MarshalText bytes %q of %q no longer parse to the same vector", ta, a.s), a.s)
+			}
+			if string(tb) != sb {
+				h.fail("", fmt.Sprintf("the bytes MarshalText returned for %q read %q after later marshalling (String() gave %q)", b.s, tb, sb), b.s)
+			}
+			return fmt.Sprintf("ok %s %s", ta, tb)
+		})
+		if out == "panic" {
+			h.fail("", "MarshalText/String panicked", a.s)
+		}
+		r.Count(fmt.Sprintf("retained:v%d-then-v%d", a.ver, b.ver))
+		r.Op(fmt.Sprintf("rt %d %s %d %s", a.ver, hexOf(a.s), b.ver, hexOf(b.s)), out, true)
+	}
+}
+
+// reparses: the text parses (by a's version) to the value a holds.
+func (h *harness) reparses(a keptVec, text string) bool {
+	switch a.ver {
+	case 2:
+		p, err := cvss.ParseV2(text)
+		return err == nil && p == *a.m.(*cvss.V2)
+	case 3:
+		p, err := cvss.ParseV3(text)
+		return err == nil && p == *a.m.(*cvss.V3)
+	default:
+		p, err := cvss.ParseV4(text)
+		return err == nil && p == *a.m.(*cvss.V4)
+	}
+}
+
+// concurrent: String / MarshalText of different vectors from several
+// goroutines at once; every goroutine owns its vector and knows its text.
+func (h *harness) concurrent(workers, iters int) {
+	r := h.r
+	if len(h.kept) < workers {
+		return
+	}
+	type job struct {
+		v    keptVec
+		want string
+	}
+	jobs := make([]job, workers)
+	for i := range jobs {
+		v := h.kept[h.rnd.Intn(len(h.kept))]
+		jobs[i] = job{v, v.m.String()}
+	}
+	bad := make([]string, workers)
+	var wg sync.WaitGroup
+	for i := range jobs {
+		wg.Add(1)
+		go func(i int) {
+			defer wg.Done()
+			defer func() {
+				if e := recover(); e != nil {
+					bad[i] = fmt.Sprintf("panic: %v", e)
+				}
+			}()
+			j := jobs[i]
+			for k := 0; k < iters; k++ {
+				t, err := j.v.m.MarshalText()
+				s := j.v.m.String()
+				if err != nil || s != j.want {
+					bad[i] = fmt.Sprintf("String() gave %q", s)
+					return
+				}
+				if string(t) != j.want {
+					bad[i] = fmt.Sprintf("MarshalText gave %q", t)
+					return
+				}
+			}
+		}(i)
+	}
+	wg.Wait()
+	for i, b := range bad {
+		r.Case(fmt.Sprintf("concurrent v%d %s", jobs[i].v.ver, jobs[i].v.s), true)
+		if b != "" {
+			h.fail("", fmt.Sprintf("concurrent printing (%d goroutines): %s, want %q", workers, b, jobs[i].want), jobs[i].v.s)
+		}
+	}
+	r.Count("concurrent:rounds")
 }
 
 // ---------------------------------------------------------------- rendering / generation
@@ -752,7 +907,7 @@ func Run(cfg hx.Config) error {
 	r.Rule = "Every v2 base vector (729) and every v3.0 / v3.1 base vector (2592 each) goes through Parse, Score, QualitativeScore, String and the OSV scorer; " +
 		"base x temporal is complete in the thorough tier and sampled in the quick tier; environmental extensions, v3 metric orders, explicit X values and v4 vectors " +
 		"(all metric groups; the 104976 base combinations completely in the thorough tier) are sampled; every entry point also gets one-edit neighbours of valid vectors, " +
-		"vectors of the other versions, the repository's fixture lists and random strings. An evaluation is non-trivial when the implementation accepted the input or " +
+		"vectors of the other versions, the repository's fixture lists and random strings. Multi-step printing: the bytes MarshalText returned for one vector are kept while vectors of any version are marshalled, then compared and re-parsed; String/MarshalText from 8 goroutines at once. An evaluation is non-trivial when the implementation accepted the input or " +
 		"the input is a one-edit neighbour of a valid vector."
 	r.Notes["toolkit"] = "the harness links " + repoDir() + "/toolkit (working tree), not toolkit v1.2.4 from the module cache"
 	r.Notes["oracles"] = "exact-rational evaluation of the v2/v3.0/v3.1 equations (math/big.Rat, own weight tables); vector grammars as regular expressions; OSV severity = documented band of the base score"
@@ -770,6 +925,9 @@ func Run(cfg hx.Config) error {
 	for _, s := range corpusLines(cfg) {
 		h.all(s, true)
 	}
+	// multi-step printing on the vectors seen so far (all three versions)
+	h.retained(cfg.N(300, 3000))
+	h.concurrent(8, cfg.N(300, 3000))
 
 	// 1. exhaustive base spaces
 	enum(v2Names[:6], v2Values[:6], func(v vec) bool {
@@ -848,6 +1006,11 @@ func Run(cfg hx.Config) error {
 	}
 	for i := 0; i < cfg.N(1500, 30000) && !r.Stop(); i++ {
 		h.all(h.randomString(), false)
+	}
+	// 6. multi-step printing over the sampled vectors
+	h.retained(cfg.N(3000, 60000))
+	for i := 0; i < cfg.N(4, 40) && !r.Stop(); i++ {
+		h.concurrent(8, cfg.N(500, 2000))
 	}
 	return nil
 }
